@@ -338,6 +338,13 @@ func PublishContext[T any](bus *EventBus, ctx context.Context, event T) {
 			}
 		}
 
+		// A context that is already cancelled skips the handler without
+		// claiming it, so a Once handler is not used up by a publish that
+		// never delivers to it
+		if ctx.Err() != nil {
+			continue
+		}
+
 		// For once handlers, use CompareAndSwap to ensure atomic execution
 		if h.once {
 			if !atomic.CompareAndSwapUint32(&h.executed, 0, 1) {
